@@ -2320,8 +2320,16 @@ func (c *streamableClientConn) Write(ctx context.Context, msg jsonrpc.Message) e
 	}
 
 	doRequest := func() (*http.Request, *http.Response, error) {
-		req, err := http.NewRequestWithContext(ctx, http.MethodPost, c.url, bytes.NewReader(data))
+		// The wait for the response headers ends with the connection as well as
+		// with ctx: a POST that a wedged server never answers must not keep its
+		// caller blocked after the session has been closed. Once the headers
+		// have arrived the exchange lives as long as ctx, as before.
+		reqCtx, cancelReq := context.WithCancel(ctx)
+		stop := context.AfterFunc(c.ctx, cancelReq)
+		req, err := http.NewRequestWithContext(reqCtx, http.MethodPost, c.url, bytes.NewReader(data))
 		if err != nil {
+			stop()
+			cancelReq()
 			return nil, nil, err
 		}
 		req.Header.Set("Content-Type", "application/json")
@@ -2331,12 +2339,21 @@ func (c *streamableClientConn) Write(ctx context.Context, msg jsonrpc.Message) e
 			// Failure to set headers means that the request was not sent.
 			// Wrap with ErrRejected so the jsonrpc2 connection doesn't set writeErr
 			// and permanently break the connection.
+			stop()
+			cancelReq()
 			return nil, nil, fmt.Errorf("%s: %w: %w", requestSummary, jsonrpc2.ErrRejected, err)
 		}
 		// Keep this after the setMCPHeaders call to ensure that the
 		// protocol version header is set.
 		setStandardHeaders(ctx, req.Header, msg)
 		resp, err := c.client.Do(req)
+		stop()
+		if err == nil {
+			// Release reqCtx when the exchange is over.
+			resp.Body = &cancelOnCloseBody{ReadCloser: resp.Body, cancel: cancelReq}
+		} else {
+			cancelReq()
+		}
 		if err != nil {
 			// Any error from client.Do means the request didn't reach the server.
 			// Wrap with ErrRejected so the jsonrpc2 connection doesn't set writeErr
@@ -2452,6 +2469,19 @@ func (c *streamableClientConn) Write(ctx context.Context, msg jsonrpc.Message) e
 		return fmt.Errorf("%s: unsupported content type %q", requestSummary, contentType)
 	}
 	return nil
+}
+
+// cancelOnCloseBody is a response body that releases its request's context
+// when it is closed.
+type cancelOnCloseBody struct {
+	io.ReadCloser
+	cancel context.CancelFunc
+}
+
+func (b *cancelOnCloseBody) Close() error {
+	err := b.ReadCloser.Close()
+	b.cancel()
+	return err
 }
 
 func (c *streamableClientConn) setMCPHeaders(req *http.Request, msg jsonrpc.Message) error {
